@@ -45,7 +45,7 @@ TriggerDescriptions == <<
   [p |-> P0("Whole Foods"),    trig |-> "desc-capitalised-words"],
   [p |-> P0("a (b) c"),        trig |-> "desc-contains-parens"],
   [p |-> P0("fee = 2"),        trig |-> "desc-contains-equals"] >>
-Notes  == << P0("weekly"), P0("déjeuner"), P("pour 😀", 1) >>
+Notes  == << P0("weekly"), P0("déjeuner"), P("pour 😀", 1), P0("7 apples"), P0("USD note"), P0("a: b") >>
 Codes  == << P0("123"), P0("INV-7"), P0("é1") >>
 Tags   == << [n |-> "type", v |-> P0("food")], [n |-> "project", v |-> P0("x y")], [n |-> "date", v |-> P0("2024-01-02")],
              [n |-> "memo", v |-> P0("été")], [n |-> "flag", v |-> P0("")], [n |-> "who", v |-> P("me😀", 1)] >>
@@ -89,7 +89,7 @@ Spell(m, sc, n) ==
    ambiguous "one mark + exactly three digits" spelling, and show what they are meant to show *)
 NotationOK(m, sc, n) ==
     LET ip == IF sc >= 10 THEN 0 ELSE m \div Pow10(sc) IN
-    CASE n \in {"point", "comma"}   -> sc # 3
+    CASE n \in {"point", "comma"}   -> sc # 3 \/ ip = 0        \* 0.125 / 0,125 cannot be a digit group
       [] n \in {"gcp", "gpc"}       -> ip >= 1000 /\ (sc > 0 \/ ip >= 1000000) /\ sc # 3
       [] n \in {"gsc", "gsp"}       -> ip >= 1000 /\ sc # 3
       [] n = "indian"               -> ip >= 100000 /\ sc # 3
